@@ -55,7 +55,7 @@ class frozenmapping(Mapping[K, V]):
 
     def __hash__(self) -> int:
         if self._hash is None:
-            self._hash = hash(tuple((k, v) for k, v in self._mapping.items()))
+            self._hash = hash(frozenset(self._mapping.items()))
         return self._hash
 
     def replace(self, key, value):
